@@ -535,9 +535,12 @@ func extractDecoder(repo, root string) error {
 		addSk(rdf, "", "peekRead")
 		addSk(rdf, "", "readVarInt")
 		addSk(rdf, "", "readNewBytes")
+		addSk(rdf, "", "readBytesWith")
+		addSk(rdf, "", "readArrayLen")
 	}
 	if dcf, err := parse("discard.go"); err == nil {
 		addSk(dcf, "", "discardN")
+		addSk(dcf, "", "discardBytes")
 	}
 	addSk(mf, "messageSetReader", "runFunc")
 	addSk(mf, "messageSetReader", "readMessageHeader")
